@@ -212,7 +212,11 @@ def value_form(stmts):
             rest = pending + lifted + [e]
             written = any(_writes_local(x, key) for r_ in rest for x in walk(r_))
             captured = any(x.get('k') == 'lambda' and any(c.get('name') == key[0] for c in x.get('caps', [])) for r_ in rest for x in walk(r_))
-            if not written and not captured:
+            # later prefix statements with side effects may change what the initialiser reads: fold only across pure ones
+            later_impure = any(x_.get('k') in ('assign', 'un', 'call', 'opcall') or
+                               (x_.get('k') == 'decl' and any('init' in v_ and not is_pure(v_['init']) for v_ in x_.get('vars', [])))
+                               for x_ in pending)
+            if not written and not captured and not later_impure:
                 holder = {'k': 'block', 'body': rest}
                 # refs that come out of a former closure body may carry no declaration position: match them by name
                 for x in walk(holder):
@@ -386,6 +390,9 @@ class Inliner:
             ptr = t.endswith('*') or obj.get('k') == 'this' or (obj.get('k') == 'opcall' and obj.get('op') == '->')
             if not is_pure(obj):
                 return None
+            o3 = _strip(obj)
+            if ptr and isinstance(o3, dict) and o3.get('k') == 'un' and o3.get('op') == '&':
+                obj, ptr = o3.get('e'), False        # (&x)->m is x.m
             this_obj = (obj, ptr)
         lm = {key: '%s@i%d' % (key[0], self.counter) for key in _locals_of(h.f['body'])}
         return parm_map, this_obj, decls, lm, tag
